@@ -24,9 +24,14 @@ pub enum FamId {
     /// the toy scheme with message-dependent signature lengths of 50..=61 bytes (crosses the 55/56
     /// boundary of the RLP string header from one signature to the next)
     Mid,
+    /// the toy scheme with a ONE-byte public key below 0x80 (its RLP encoding is the byte itself) and
+    /// one-byte signatures (message-dependent value: both the self-encoding and the 0x81-prefixed form)
+    Nano,
+    /// the toy scheme with a 64-byte public key (long-form RLP string header) and 64-byte signatures
+    Big,
 }
 pub const BUILTIN_FAMS: [FamId; 5] = [FamId::K256, FamId::Libsecp, FamId::Ed, FamId::CombinedSecp, FamId::CombinedEd];
-pub const ALL_FAMS: [FamId; 9] = [
+pub const ALL_FAMS: [FamId; 11] = [
     FamId::K256,
     FamId::Libsecp,
     FamId::Ed,
@@ -36,9 +41,15 @@ pub const ALL_FAMS: [FamId; 9] = [
     FamId::Wide,
     FamId::Tiny,
     FamId::Mid,
+    FamId::Nano,
+    FamId::Big,
 ];
 
 impl FamId {
+    /// the toy scheme (public key under "t")
+    pub fn is_toy(self) -> bool {
+        matches!(self, FamId::Tiny | FamId::Mid | FamId::Nano | FamId::Big)
+    }
     pub fn scheme(self) -> Scheme {
         match self {
             FamId::Ed | FamId::CombinedEd => Scheme::Ed,
@@ -51,13 +62,13 @@ impl FamId {
             FamId::Libsecp => Some(KeyType::Libsecp),
             FamId::Ed => Some(KeyType::Ed),
             FamId::CombinedSecp | FamId::CombinedEd => Some(KeyType::Combined),
-            FamId::Var | FamId::Wide | FamId::Tiny | FamId::Mid => None,
+            FamId::Var | FamId::Wide | FamId::Tiny | FamId::Mid | FamId::Nano | FamId::Big => None,
         }
     }
     /// name of the public-key entry this family stores
     pub fn key_name(self) -> &'static [u8] {
         match self {
-            FamId::Tiny | FamId::Mid => b"t",
+            f if f.is_toy() => b"t",
             f => f.scheme().key_name(),
         }
     }
@@ -72,6 +83,8 @@ impl FamId {
             FamId::Wide => "widekey",
             FamId::Tiny => "tinykey",
             FamId::Mid => "midkey",
+            FamId::Nano => "nanokey",
+            FamId::Big => "bigkey",
         }
     }
     /// length of signatures of this family, None = variable
@@ -79,12 +92,13 @@ impl FamId {
         match self {
             FamId::Var | FamId::Wide | FamId::Mid => None,
             FamId::Tiny => Some(6),
+            FamId::Nano => Some(1),
             _ => Some(64),
         }
     }
     /// is `secret` usable as a secret of this family's scheme
     pub fn secret_ok(self, s: &[u8; 32]) -> bool {
-        if matches!(self, FamId::Tiny | FamId::Mid) {
+        if self.is_toy() {
             return true;
         }
         match self.scheme() {
@@ -94,8 +108,8 @@ impl FamId {
     }
     /// reference-derived public key bytes (as stored in the record)
     pub fn ref_pk(self, s: &[u8; 32]) -> Vec<u8> {
-        if matches!(self, FamId::Tiny | FamId::Mid) {
-            return tiny_pk(s).to_vec();
+        if self.is_toy() {
+            return toy_pk(self, s);
         }
         match self.scheme() {
             Scheme::Secp => crypto::secp_pk_from_secret(s).expect("valid secret").to_vec(),
@@ -305,18 +319,27 @@ impl Fam for VarKey {
 // stored under "t"; signature = keccak256("tiny-sig" || pk || msg)[..6].  Legitimate as an EnrKey
 // implementation; its records are ~21 bytes long.
 
-pub struct TinyKey(pub [u8; 32], pub bool);
+pub struct TinyKey(pub [u8; 32], pub FamId);
 
 /// signature length of the `Mid` variant for this message: 50..=61
 pub fn mid_len(msg: &[u8]) -> usize {
     50 + (keccak256(&[b"mid-len".as_ref(), msg].concat())[0] % 12) as usize
 }
+/// public key bytes as stored under "t": 4 bytes (Tiny, Mid), 1 byte below 0x80 (Nano), 64 bytes (Big)
 #[derive(Clone, Debug)]
-pub struct TinyPub(pub [u8; 4]);
+pub struct TinyPub(pub Vec<u8>);
 
 pub fn tiny_pk(secret: &[u8; 32]) -> [u8; 4] {
     let h = keccak256(&[b"tiny-pk".as_ref(), secret].concat());
     [h[0], h[1], h[2], h[3]]
+}
+pub fn toy_pk(fam: FamId, secret: &[u8; 32]) -> Vec<u8> {
+    let h = keccak256(&[b"tiny-pk".as_ref(), secret].concat());
+    match fam {
+        FamId::Nano => vec![h[0] & 0x7f],
+        FamId::Big => [&h[..], &keccak256(&h)[..]].concat(),
+        _ => h[..4].to_vec(),
+    }
 }
 pub fn tiny_sign(pk: &[u8], msg: &[u8]) -> Vec<u8> {
     tiny_sign_len(pk, msg, 6)
@@ -335,8 +358,24 @@ pub fn tiny_sign_len(pk: &[u8], msg: &[u8], len: usize) -> Vec<u8> {
     out.truncate(len);
     out
 }
+/// signature of the toy scheme for family `fam`
+pub fn toy_sign(fam: FamId, pk: &[u8], msg: &[u8]) -> Vec<u8> {
+    match fam {
+        FamId::Mid => tiny_sign_len(pk, msg, mid_len(msg)),
+        FamId::Nano => tiny_sign_len(pk, msg, 1),
+        FamId::Big => tiny_sign_len(pk, msg, 64),
+        _ => tiny_sign(pk, msg),
+    }
+}
+/// the public key's length selects the variant: 4 bytes -> Tiny or Mid, 1 -> Nano, 64 -> Big
 pub fn tiny_verify(pk: &[u8], msg: &[u8], sig: &[u8]) -> crypto::Verdict {
-    if pk.len() == 4 && (sig == tiny_sign(pk, msg).as_slice() || (sig.len() == mid_len(msg) && sig == tiny_sign_len(pk, msg, sig.len()).as_slice())) {
+    let ok = match pk.len() {
+        4 => sig == tiny_sign(pk, msg).as_slice() || (sig.len() == mid_len(msg) && sig == tiny_sign_len(pk, msg, sig.len()).as_slice()),
+        1 => pk[0] < 0x80 && sig == tiny_sign_len(pk, msg, 1).as_slice(),
+        64 => sig == tiny_sign_len(pk, msg, 64).as_slice(),
+        _ => false,
+    };
+    if ok {
         crypto::Verdict::Valid
     } else {
         crypto::Verdict::Invalid
@@ -345,14 +384,10 @@ pub fn tiny_verify(pk: &[u8], msg: &[u8], sig: &[u8]) -> crypto::Verdict {
 impl EnrKey for TinyKey {
     type PublicKey = TinyPub;
     fn sign_v4(&self, msg: &[u8]) -> Result<Vec<u8>, SigningError> {
-        if self.1 {
-            Ok(tiny_sign_len(&tiny_pk(&self.0), msg, mid_len(msg)))
-        } else {
-            Ok(tiny_sign(&tiny_pk(&self.0), msg))
-        }
+        Ok(toy_sign(self.1, &toy_pk(self.1, &self.0), msg))
     }
     fn public(&self) -> TinyPub {
-        TinyPub(tiny_pk(&self.0))
+        TinyPub(toy_pk(self.1, &self.0))
     }
     fn enr_to_public(
         content: &std::collections::BTreeMap<Vec<u8>, bytes::Bytes>,
@@ -360,23 +395,23 @@ impl EnrKey for TinyKey {
         let raw = content.get(&b"t"[..]).ok_or(alloy_rlp::Error::Custom("no key"))?;
         let it = crate::refmodel::rlp::decode_exact(raw).map_err(|_| alloy_rlp::Error::Custom("bad rlp"))?;
         let b = it.as_str().ok_or(alloy_rlp::Error::Custom("not a string"))?;
-        if b.len() != 4 {
+        if !(b.len() == 4 || b.len() == 64 || (b.len() == 1 && b[0] < 0x80)) {
             return Err(alloy_rlp::Error::Custom("bad key length"));
         }
-        Ok(TinyPub([b[0], b[1], b[2], b[3]]))
+        Ok(TinyPub(b.to_vec()))
     }
 }
 impl EnrPublicKey for TinyPub {
-    type Raw = [u8; 4];
-    type RawUncompressed = [u8; 4];
+    type Raw = Vec<u8>;
+    type RawUncompressed = Vec<u8>;
     fn verify_v4(&self, msg: &[u8], sig: &[u8]) -> bool {
         tiny_verify(&self.0, msg, sig) == crypto::Verdict::Valid
     }
-    fn encode(&self) -> [u8; 4] {
-        self.0
+    fn encode(&self) -> Vec<u8> {
+        self.0.clone()
     }
-    fn encode_uncompressed(&self) -> [u8; 4] {
-        self.0
+    fn encode_uncompressed(&self) -> Vec<u8> {
+        self.0.clone()
     }
     fn enr_key(&self) -> Vec<u8> {
         b"t".to_vec()
@@ -384,7 +419,7 @@ impl EnrPublicKey for TinyPub {
 }
 impl Fam for TinyKey {
     fn make(id: FamId, s: &[u8; 32]) -> Self {
-        TinyKey(*s, id == FamId::Mid)
+        TinyKey(*s, id)
     }
 }
 
@@ -393,8 +428,7 @@ impl Fam for TinyKey {
 pub fn ref_sign(id: FamId, secret: &[u8; 32], content: &[u8], alt: bool) -> Vec<u8> {
     match id {
         FamId::Var | FamId::Wide => var_sign(secret, content, var_units(id, secret)),
-        FamId::Tiny => tiny_sign(&tiny_pk(secret), content),
-        FamId::Mid => tiny_sign_len(&tiny_pk(secret), content, mid_len(content)),
+        f if f.is_toy() => toy_sign(f, &toy_pk(f, secret), content),
         _ => match id.scheme() {
             Scheme::Secp => {
                 if alt {
